@@ -54,7 +54,25 @@ def bounded_configs(tier, seed):
                         "get_config_dict(replace_config_dir=R) changes exactly the values that contain the local config dir")]
 
 
-EXTRA_CHECKS = [bounded_configs]
+def local_dir_source(tier, seed):
+    """the closures are verified for an arbitrary local_config_dir; here: the directory they are given is the one redun.cli.get_config_dir()
+    returns (the machine-local config dir the documentation of replace_config_dir speaks of), bound once, before the closures run"""
+    import ast
+    from pvc import extract
+    from pvc.result import Result
+    fn = extract.find("redun/config.py:Config.get_config_dict")
+    stores = [x for x in ast.walk(fn) if isinstance(x, (ast.Assign, ast.AnnAssign, ast.AugAssign))
+              and any(isinstance(t, ast.Name) and t.id == "local_config_dir" for t in (x.targets if isinstance(x, ast.Assign) else [x.target]))]
+    uses = [x for x in ast.walk(fn) if isinstance(x, ast.Name) and x.id == "local_config_dir" and isinstance(x.ctx, ast.Load)]
+    if not stores or not uses:
+        status, why = "undecided", "the closure variable local_config_dir no longer exists under that name"
+    else:
+        ok = len(stores) == 1 and isinstance(stores[0].value, ast.Call) and ast.unparse(stores[0].value.func).split(".")[-1] == "get_config_dir" and not stores[0].value.args
+        status, why = ("proved", "local_config_dir = get_config_dir()") if ok else ("refuted", "local_config_dir is bound to " + ast.unparse(stores[0].value)[:80])
+    return [Result("get_config_dict/local-config-dir-is-get_config_dir()", "finite", status, "Config.get_config_dict", fn.lineno, solver="python", detail={"observed": why, "stage": 0})]
+
+
+EXTRA_CHECKS = [bounded_configs, local_dir_source]
 EXPECTED_MIN_OBLIGATIONS = 8
 TRUSTED = ["A-INI (configparser.ExtendedInterpolation as an uninterpreted function with the dollar-doubling escape law)", "str.replace as an uninterpreted function that is the identity on texts without the pattern",
            "ConfigParser.read_dict stores option texts verbatim; SectionProxy.items() yields effective values"]
